@@ -115,6 +115,10 @@ Definition apply_builtin (b : builtin) (args : list val) : res val :=
       | Some key => match dict_get key d with Some v => Ok v | None => Ok dflt end
       | None => Ok dflt
       end
+  | BWhere, [c; a; b0] => Ok (if truthy c then a else b0)
+  | BLogAnd, [a; b0] => Ok (VBool (truthy a && truthy b0))
+  | BLogOr, [a; b0] => Ok (VBool (truthy a || truthy b0))
+  | BLogNot, [a] => Ok (VBool (negb (truthy a)))
   | BPiecewise, [x; t; r; i] =>
       do s <- mk_sched t r i; do xx <- as_xq x;
       do y <- pp_impl s xx None; Ok (VFloat y)
